@@ -1,17 +1,28 @@
 #!/bin/bash
-# usage: tools/try_patch.sh <patch-file> [-R] -- <Cxx> [<Cyy> ...]     applies the patch to /repo, runs the quick checks, restores /repo
-patch="$1"; shift
+# usage: tools/try_patch.sh <patch-file> [-R] -- <Cxx> [<Cyy> ...]
+# Runs the quick (or $TIER) checks against the repository with the patch applied and prints the verdict lines.
+# Default: applies the patch to /repo itself and restores it afterwards (git checkout -- .).
+# With SCRATCH=1: uses a throw-away git worktree of /repo's HEAD under /tmp (VERIF_REPO points the checks at it), so /repo is untouched
+# and several patches can be evaluated side by side; evidence/replays of such runs go to a private VERIF_OUT directory.
+patch="$(readlink -f "$1")"; shift
 rev=""
 if [ "$1" = "-R" ]; then rev="-R"; shift; fi
 [ "$1" = "--" ] && shift
-cd /repo || exit 2
-if [ -n "$(git status --porcelain --untracked-files=no)" ]; then echo "/repo not clean" >&2; exit 2; fi
-git apply $rev "$patch" || { echo "patch does not apply" >&2; exit 2; }
+if [ -n "$SCRATCH" ]; then
+  wt=$(mktemp -d /tmp/vscratch.XXXXXX); rmdir "$wt"
+  git -C /repo worktree add -q --detach "$wt" HEAD || exit 2
+  trap 'git -C /repo worktree remove --force "$wt" >/dev/null 2>&1; rm -rf "$VERIF_OUT"' EXIT
+  export VERIF_REPO="$wt" VERIF_OUT=$(mktemp -d /tmp/vout.XXXXXX)
+else
+  wt=/repo
+  if [ -n "$(git -C /repo status --porcelain --untracked-files=no)" ]; then echo "/repo not clean" >&2; exit 2; fi
+  trap 'git -C /repo checkout -- .' EXIT
+fi
+git -C "$wt" apply $rev "$patch" || { echo "patch does not apply" >&2; exit 2; }
 cd /verif
 for p in "$@"; do
   out=$(./check "$p" ${TIER:-quick} 2>&1)
   rc=$?
   echo "== $p rc=$rc"
-  echo "$out" | grep -E "VIOLATION|KNOWN-FINDING|INCONCLUSIVE|violated|inconclusive  \]| exit=" | cut -c1-400
+  echo "$out" | grep -E "VIOLATION|KNOWN-FINDING|INCONCLUSIVE|violated|inconclusive  \]| exit=" | cut -c1-${WIDTH:-400}
 done
-git -C /repo checkout -- . 
